@@ -41,13 +41,18 @@ theorem evalUpdate_go_append (db : Engine.DB) (table : Bytes) (cols : List Strin
 one record per selected row, and for EVERY `k`, with `j = min k logs.length`, replaying the first `k`
 records on `r` ends without error in a store `rK` which - like the store `sK` of the engine's loop
 after the first `j` selected rows, reached by a live run of `j` row statements with log `logs.take k` -
-abstracts to `sdb` with the first `j` selected rows of the table rewritten, no other row touched. -/
+abstracts to `sdb` with the first `j` selected rows of the table rewritten, no other row touched.
+(`hsetAll`: the SET columns pass the statement's check - what `evalUpdate_ok_set` reads off a run of
+the engine that succeeded.) -/
 theorem evalUpdate_cut (db : Engine.DB) (r : Store) (pt sch : Levels) (tbls : List (Bytes × Levels))
     (sdb sdb' : Spec.SDB) (h : Abs db.store pt sch tbls sdb) (hr : Cat r pt sch tbls) (hself : PtSelf pt)
     (hf : FreshM db.store tbls) (e1 : r.hdr.nextFree = db.store.hdr.nextFree)
     (e2 : r.hdr.lastKey = db.store.hdr.lastKey) (e3 : r.hdr.nextLSN ≤ db.store.hdr.nextLSN)
     (table : Bytes) (sets : List (Bytes × Sql.VExpr)) (w : Option Sql.Cond)
     (hvalid : ∀ p ∈ sets, ∀ l, p.2 = .lit l → ValidVal (Engine.litToVal l))
+    (hsetAll : ∀ schema, schemaOf sch table = some schema →
+      Engine.checkSetColumns (schema.map fun fd => (⟨[], fd.name.toUTF8.toList⟩ : Exec.Field)) []
+        (sets.map (·.1)) = none)
     (hspec : Spec.specUpdate sdb table sets w = some sdb') :
     ∃ dbC logs st sel, Engine.evalUpdate db table sets w = .ok () dbC ∧ dbC.wal = db.wal ++ logs ∧
       Spec.findTable sdb table = some st ∧ Spec.selects st w = some sel ∧
@@ -78,6 +83,8 @@ theorem evalUpdate_cut (db : Engine.DB) (r : Store) (pt sch : Levels) (tbls : Li
         apply hany
         rw [List.any_eq_true]
         exact ⟨p, hp, by simp only [hpc]⟩
+      split at hspec
+      · cases hspec
       cases hsel : Spec.selects st w with
       | none => rw [hsel] at hspec; cases hspec
       | some sel =>
@@ -91,6 +98,10 @@ theorem evalUpdate_cut (db : Engine.DB) (r : Store) (pt sch : Levels) (tbls : Li
           rw [hfind] at hfd
           simp only [Option.some.injEq] at hfd
           subst hfd
+          have hset := hsetAll schema hsch
+          have hcc : checkColumns schema (sets.map fun p => Engine.bytesToName p.1) = none := by
+            have := checkSetColumns_none_checkColumns schema _ hset
+            rwa [List.map_map] at this
           obtain ⟨s1, efetch, hs1, hc1⟩ := fetchTable_cat h.cat table t ht schema hsch hdec
           obtain ⟨efilter, hsl⟩ := filterIds_selects table schema (rowsOf schema (live t)) w sel hsel
           obtain ⟨_, hIt, _, _, _⟩ := h.cat.tree t (Cat.tb_mem ht)
@@ -116,7 +127,7 @@ theorem evalUpdate_cut (db : Engine.DB) (r : Store) (pt sch : Levels) (tbls : Li
             obtain ⟨c, hc, hck⟩ := mem_rowsOf ((selRows_sublist _ sel).subset hq)
             exact ⟨c, hc, hck, hcan c hc (hck ▸ List.mem_map.mpr ⟨q, hq, rfl⟩)⟩
           -- the whole statement
-          obtain ⟨sC, tC, logs, ego, _, _, _, hlenC, _, _⟩ := evalUpdate_go_live db table pt sch schema hsch sets
+          obtain ⟨sC, tC, logs, ego, _, _, _, hlenC, _, _⟩ := evalUpdate_go_live db table pt sch schema hsch sets hcc
             (selRows (rowsOf schema (live t)) sel) s1 tbls t [] hc1 ht hnd' hmemsel
           have hf1 : FreshM s1 tbls :=
             hf.of_hdr (by rw [hs1.2]; exact Nat.le_refl _) (by rw [hs1.2]; exact Nat.le_refl _)
@@ -125,7 +136,7 @@ theorem evalUpdate_cut (db : Engine.DB) (r : Store) (pt sch : Levels) (tbls : Li
               (sets.map fun p => match p.2 with | .lit l => Engine.litToVal l | .col _ => Val.null) s1 []
               (selRows (rowsOf schema (live t)) sel) := by
             rw [evalUpdate_nocol db table sets w hnocol]
-            simp only [Engine.fetchForExec, Engine.liftS, efetch, efilter]
+            simp only [Engine.fetchForExec, Engine.liftS, efetch, hset, efilter]
             rfl
           refine ⟨{ store := sC, wal := db.wal ++ ([] ++ logs) }, logs, _, sel, hstart.trans ego, by simp, rfl,
             hsel, by rw [hlenC, selRows_length _ _ hsl], ?_⟩
@@ -135,7 +146,7 @@ theorem evalUpdate_cut (db : Engine.DB) (r : Store) (pt sch : Levels) (tbls : Li
               min k logs.length := by
             rw [List.length_take, ← hlenC]; omega
           obtain ⟨sK, tK, logsJ, egoJ, hrunJ, hcJ, hlJ, hlenJ, hlkJ, hnfJ⟩ := evalUpdate_go_live db table pt sch schema
-            hsch sets ((selRows (rowsOf schema (live t)) sel).take (min k logs.length)) s1 tbls t [] hc1 ht
+            hsch sets hcc ((selRows (rowsOf schema (live t)) sel).take (min k logs.length)) s1 tbls t [] hc1 ht
             (hnd'.sublist ((List.take_sublist _ _).map _))
             (fun q hq => hmemsel q ((List.take_sublist _ _).subset hq))
           rw [hjlen] at hlenJ
